@@ -104,6 +104,8 @@ func (t *TraceSCR) GetSingleton(name string, allowEarlyReference bool) (*cd.Meta
 			} else if s.early != m {
 				t.bad("two different early references observed for '%s' during one creation", name)
 			}
+		} else if s.early != nil && err == nil {
+			t.bad("a lookup of '%s' during its creation (early references allowed: %v) returned nothing although an early reference had already been handed out", name, allowEarlyReference)
 		}
 	default:
 		if m != nil && err == nil {
